@@ -44,7 +44,7 @@ def cfg(tier, which):
 
 
 def budget(tier):
-    return 3000 if tier == "quick" else 60000
+    return 5000 if tier == "quick" else 60000
 
 
 def strategy(tier):
